@@ -311,6 +311,28 @@ theorem encoder_chunking_errors (given : Option Name) (cs : List (List Nat)) :
     erunAllE cpyInnerEnc given cs = encodeOneShotE cpyInnerEnc given cs.flatten :=
   erunAllE_eq cpyInnerEnc given cs
 
+/-! ## `reset()` -/
+
+/-- "reset the decoder / encoder to the initial state" (the `codecs` contract), `_partial`: holds when `encoding`
+was given to the constructor (and, for the decoder, `force` is true — the default): whatever was fed before, the
+reset machine is the fresh machine. The full statement (every `encoding` / `force`) is FALSE for the code: `reset`
+leaves the encoding detected from the previous input in `self.encoding` — `finding_reset_keeps_encoding`. -/
+theorem reset_is_fresh_partial (I : Inner) (J : InnerEnc) (g : Name) (cs : List (List Nat)) :
+    (runChunks I (.waiting (some g) true []) cs).1.reset true = .waiting (some g) true [] ∧
+    (erunChunks J (.waiting (some g) []) cs).1.reset = .waiting (some g) [] :=
+  ⟨reset_initial_forced I g cs, ereset_initial_given J g cs⟩
+
+/-- the negation at a witness: a decoder created without `encoding` that has decoded a UTF-16 document (BOM) and
+is then reset decodes the UTF-8 bytes `a{}` as UTF-16 and raises, where a fresh decoder returns `a{}`; an encoder
+that has encoded `@charset "ascii";` and is reset refuses `é`, which a fresh encoder writes as UTF-8 -/
+theorem finding_reset_keeps_encoding :
+    (stepE cpyInner ((step cpyInner (.waiting none true []) [0xFF, 0xFE, 0x61, 0] true).1.reset true)
+        [0x61, 0x7B, 0x7D] true).map (·.2) = none ∧
+    (stepE cpyInner (.waiting none true []) [0x61, 0x7B, 0x7D] true).map (·.2) = some [0x61, 0x7B, 0x7D] ∧
+    (estepE cpyInnerEnc ((estep cpyInnerEnc (.waiting none []) (prefix10 ++ cps' "ascii" ++ [0x22, 0x3B]) true).1.reset)
+        [0xE9] true).map (·.2) = none ∧
+    (estepE cpyInnerEnc (.waiting none []) [0xE9] true).map (·.2) = some [0xC3, 0xA9] := by decide
+
 /-! ## round trip with auto-detection (no `encoding` argument on the decoding side) -/
 
 /-- T7.1 (auto-detected, BOM): a text encoded with a BOM-writing encoding (`utf-8-sig`, `utf-16`, `utf-32`, any
